@@ -25,6 +25,7 @@ def main(tier):
     chk.run("R-CASEDEDUP", B.casededup, r, floor=3)
     chk.run("R-ENUMCASE", B.enumcase, r, floor=2)
     chk.run("R-EXACTNAME", B.exactname, r, floor=2)
+    chk.run("R-TEXTNAME", B.textname, r, floor=2)
     chk.run("R-RENDERINT", B.renderint, r, floor=100)
     chk.run("R-WIDTHS", lambda: cx.widths, floor=3000)
     chk.run("R-POSCHECK", V.poscheck, r, cx.schema, cx.sites, floor=9)
